@@ -7,7 +7,7 @@
 //!   parsed trees; all ids interned to small numbers, 0 = null id);
 //! * the tokens after `|` are the raw store the REAL `check(read_data)` and the real read-back run on.
 //! `exec` recomputes the abstraction from the raw store (so a generator bug cannot hide) and prints
-//!   `errs=<sorted Error-level finding kinds|none|cmd-err> restore=<ok|bad>`
+//!   `errs=<sorted Error-level finding kinds|none|cmd-err> restore=<ok|bad|->`   (`-` when errs != none)
 //! or `oracle-fail:silent:<label-class>` when check is silent although a snapshot does not read back.
 //! The store bytes depend on random nonces, so generated lines differ between runs; every line is
 //! self-contained and replays exactly.
@@ -384,6 +384,32 @@ pub fn real_restore_ok(h: &RepoHandle, expected: &BTreeMap<String, String>) -> b
     .unwrap_or(false)
 }
 
+/// Do all snapshot files the BACKEND lists load, and read back as recorded?  (The listing of the backend, not
+/// `get_all_snapshots`: a reader that skips files it cannot load would hide exactly the damaged ones.)  A snapshot
+/// file that cannot be loaded is a snapshot that cannot be restored.
+pub fn real_restore_listed_ok(h: &RepoHandle, expected: &BTreeMap<String, String>) -> bool {
+    let h2 = h.clone();
+    let expected = expected.clone();
+    std::panic::catch_unwind(std::panic::AssertUnwindSafe(move || {
+        let ids = h2.be.ids(FileType::Snapshot);
+        let Ok(repo) = open_nc(&h2) else { return false };
+        let mut snaps = Vec::new();
+        for id in ids {
+            let hexid = id.to_hex().to_string();
+            match repo.get_snapshot_from_str(&hexid, |_| true) {
+                Ok(s) => snaps.push((hexid, s)),
+                Err(_) => return false,
+            }
+        }
+        let Ok(repo) = repo.to_indexed() else { return false };
+        snaps.iter().all(|(id, s)| match tree_digest(&repo, s.tree) {
+            Ok(d) => expected.get(id) == Some(&d),
+            Err(_) => false,
+        })
+    }))
+    .unwrap_or(false)
+}
+
 const INDEX_KINDS: [&str; 5] = ["PackTimeNotSet", "PackBlobTypesMismatch", "PackBlobOffsetMismatch", "PackSizeMismatchIndex", "NoPack"];
 
 /// Does some blob key have two *different* index entries among the live packs?  Then which one the real
@@ -426,7 +452,7 @@ pub fn exec(toks: &[&str]) -> String {
             Ok(e) => canon_errs(e.clone()),
             Err(_) => "cmd-err".to_string(),
         };
-        let ok = real_restore_ok(&h, &expected);
+        let ok = real_restore_listed_ok(&h, &expected);
         if errs == "none" && !ok {
             return "oracle-fail:silent".to_string();
         }
@@ -439,6 +465,13 @@ pub fn exec(toks: &[&str]) -> String {
                 Err(_) => "cmd-err".to_string(),
             };
             return format!("ambig errs={e1}");
+        }
+        // The restore verdict is compared with the model's only when check is clean: the model's verdict is the
+        // *authentic* restore (every blob read hashes to its id), the real read-back compares content, and reported
+        // damage can leave the content intact (two tree packs of identical layout exchanged on a path of even depth
+        // cancel out). With errs = none the two coincide (theorem restore side: check_sound).
+        if errs != "none" {
+            return format!("errs={errs} restore=-");
         }
         format!("errs={errs} restore={}", if ok { "ok" } else { "bad" })
     });
@@ -555,6 +588,55 @@ pub fn build_stdin_pair(stats: &mut Stats, v1: bool) -> Option<Built> {
     Some(Built { h, expected })
 }
 
+/// A file node that carries a `subtree` (no archiver of rustic writes one, but `ReadSource` is a public trait and the
+/// archiver stores the node as it comes; the node streamers of ls / restore follow the subtree of *any* node).
+#[derive(Clone, Debug)]
+pub struct FileWithSubtreeSource {
+    pub name: String,
+    pub content: Vec<u8>,
+    pub mtime_s: i64,
+    pub subtree: rustic_core::TreeId,
+}
+impl ReadSource for FileWithSubtreeSource {
+    type Open = std::io::Cursor<Vec<u8>>;
+    type Iter = std::vec::IntoIter<RusticResult<ReadSourceEntry<Self::Open>>>;
+    fn size(&self) -> RusticResult<Option<u64>> {
+        Ok(None)
+    }
+    fn entries(&self) -> Self::Iter {
+        let mut e = SrcEntry::file(&[self.name.as_bytes()], &self.content);
+        e.mtime_s = self.mtime_s;
+        e.ctime_s = self.mtime_s;
+        let mut node = MemSource::node_of(&e);
+        node.subtree = Some(self.subtree);
+        vec![Ok(ReadSourceEntry { path: PathBuf::from(&self.name), node, open: Some(std::io::Cursor::new(self.content.clone())) })].into_iter()
+    }
+}
+
+/// Two same-size tree packs holding one tree each (as in `build_stdin_pair`), whose snapshots are then forgotten; a
+/// third snapshot reaches the first tree only through the `subtree` of a *file* node.
+pub fn build_file_subtree(stats: &mut Stats, v1: bool) -> Option<Built> {
+    let mut cfg = ConfigOptions::default();
+    if !v1 {
+        cfg.set_compression = Some(0);
+    }
+    let h = init_repo(&cfg, v1)?;
+    let mut snaps = vec![];
+    for (k, c) in [b"AAAAA", b"BBBBB"].iter().enumerate() {
+        let repo = open_nc(&h).ok()?.to_indexed_ids().ok()?;
+        let s = SingleFileSource { name: "stdin".into(), content: c.to_vec(), mtime_s: 1_600_000_000 + k as i64 };
+        snaps.push(repo.archive(&BackupOptions::default(), &s, SnapshotFile::default(), &[PathBuf::from("stdin")]).ok()?);
+    }
+    let repo = open_nc(&h).ok()?.to_indexed_ids().ok()?;
+    let s = FileWithSubtreeSource { name: "odd".into(), content: b"CCCCCCC".to_vec(), mtime_s: 1_600_000_009, subtree: snaps[0].tree };
+    _ = repo.archive(&BackupOptions::default(), &s, SnapshotFile::default(), &[PathBuf::from("odd")]).ok()?;
+    let repo = open_nc(&h).ok()?;
+    repo.delete_snapshots(&[snaps[0].id, snaps[1].id]).ok()?;
+    stats.hit("repo.file-node-with-subtree");
+    let expected = all_digests(&h).ok()?;
+    Some(Built { h, expected })
+}
+
 pub fn build_repo(rng: &mut Rng, stats: &mut Stats, force_stdin: bool) -> Option<Built> {
     let (cfg, v1) = cfg_opts(rng, stats);
     let Some(h) = init_repo(&cfg, v1) else {
@@ -587,6 +669,71 @@ pub fn build_repo(rng: &mut Rng, stats: &mut Stats, force_stdin: bool) -> Option
     }
     let expected = all_digests(&h).ok()?;
     Some(Built { h, expected })
+}
+
+fn evolve(src: &MemSource, rng: &mut Rng, k: usize) -> MemSource {
+    let mut es = src.entries.clone();
+    es.retain(|e| !matches!(e.kind, SrcKind::Dir));
+    let el = 1 + rng.below(2500) as usize;
+    let extra = content(rng, el);
+    es.push(SrcEntry::file(&[format!("n{k}").as_bytes()], &extra));
+    if es.len() > 2 && rng.chance(1, 2) {
+        _ = es.remove(0);
+    }
+    MemSource::new(es)
+}
+
+/// A repository with a forget/prune history: backup(s), forget, prune with keep-delete > 0 (unused packs are only
+/// *marked*: they stay stored and are listed in `packs_to_delete`; partly used packs are repacked and their old
+/// versions marked), then the forgotten data is backed up again (blobs in marked packs are not indexed, so they are
+/// uploaded again into new packs described by a new index file) — every key of the new snapshot then has a second,
+/// not indexed copy in a marked pack.
+pub fn build_pruned(rng: &mut Rng, stats: &mut Stats) -> Option<Built> {
+    let (cfg, v1) = cfg_opts(rng, stats);
+    let h = init_repo(&cfg, v1)?;
+    let archive = |src: &MemSource| -> Option<SnapshotFile> {
+        let repo = open_nc(&h).ok()?.to_indexed_ids().ok()?;
+        repo.archive(&BackupOptions::default(), src, SnapshotFile::default(), &[PathBuf::from(crate::repo::SRC_ROOT)]).ok()
+    };
+    let src0 = tree_source(rng, stats);
+    let first = archive(&src0)?;
+    let mut src = src0.clone();
+    let n_more = rng.below(3) as usize;
+    for k in 0..n_more {
+        src = evolve(&src, rng, k);
+        _ = archive(&src)?;
+    }
+    // forget the first snapshot (possibly the only one), prune: marks / repacks
+    let repo = open_nc(&h).ok()?;
+    repo.delete_snapshots(&[first.id]).ok()?;
+    let mut opts = rustic_core::PruneOptions::default();
+    if rng.chance(1, 2) {
+        opts = opts.max_unused(rustic_core::LimitOption::Percentage(0)).max_repack(rustic_core::LimitOption::Unlimited);
+        stats.hit("prune.max-unused-0");
+    }
+    let plan = repo.prune_plan(&opts).ok()?;
+    repo.prune(&opts, plan).ok()?;
+    stats.hit("repo.pruned-with-marked-packs");
+    // the forgotten data again (and possibly one more backup)
+    _ = archive(&src0)?;
+    if rng.chance(1, 3) {
+        src = evolve(&src, rng, 7);
+        _ = archive(&src)?;
+    }
+    let marked = index_packs_marked(&h.key, &h.be.store());
+    stats.hit(format!("repo.marked-packs.{}", Stats::bucket(marked)));
+    let expected = all_digests(&h).ok()?;
+    Some(Built { h, expected })
+}
+
+fn index_packs_marked(key: &MasterKey, store: &Store) -> usize {
+    let mut n = 0;
+    for (_, b) in files_of(store, FileType::Index) {
+        if let Some(f) = decode_file(key, &b).and_then(|p| serde_json::from_slice::<IndexFile>(&p).ok()) {
+            n += f.packs_to_delete.len();
+        }
+    }
+    n
 }
 
 fn reencode_index(key: &MasterKey, f: &IndexFile) -> (Id, Bytes) {
@@ -721,11 +868,21 @@ pub fn line(label: &str, key: &MasterKey, store: &Store, expected: &BTreeMap<Str
 }
 
 pub fn generate(thorough: bool, rng: &mut Rng, ops: &mut Vec<String>, stats: &mut Stats) {
-    let n_repos = if thorough { 20 } else { 4 };
+    let n_repos = if thorough { 60 } else { 5 };
     let per_repo_cap = if thorough { 300 } else { 110 };
     for r in 0..n_repos {
         // the first repository of every run is the stdin-style one (packs holding only a root tree)
-        let built = if r == 0 { build_stdin_pair(stats, rng.chance(1, 2)) } else { build_repo(rng, stats, r == 1) };
+        // … the third one (and every fourth after it) has a forget/prune history with packs marked for deletion
+        let built = if r == 0 {
+            build_stdin_pair(stats, rng.chance(1, 2))
+        } else if r % 4 == 2 {
+            build_pruned(rng, stats)
+        } else if r == 3 {
+            // … the fourth one reaches a tree only through the subtree of a file node
+            build_file_subtree(stats, rng.chance(1, 2))
+        } else {
+            build_repo(rng, stats, r == 1)
+        };
         let Some(b) = built else {
             stats.hit("repo.build-failed");
             continue;
